@@ -542,7 +542,7 @@ def _run(ck, tier, root, static_broken):
                      f"{hexs(o['stdout'])} {hexs(o['stderr'])} {file_tok}")
         line_case.append(ci)
     verdicts = driver(lines)
-    failing = []
+    failing, failing_idx = [], []
     for ci, v in zip(line_case, verdicts):
         c, o = cases[ci], obs[ci]
         fl = c["flags"] or {}
@@ -567,14 +567,22 @@ def _run(ck, tier, root, static_broken):
         if v != "ok 0":
             ck.cov["unsupported_dropped"] += 1
             continue
+        failing_idx.append(ci)
+    failing_idx.sort(key=lambda ci: (len(_txt(cases[ci]["inp"]["text"])), len(cases[ci]["argv"])))
+    n_failing = len(failing_idx)
+    ck.cov["impl_property_failures"] += max(0, n_failing - 40)       # beyond the 40 smallest: counted, not detailed
+    failing_idx = failing_idx[:40]
+    exps = driver(["cli outcome {} {} {} {}".format(cases[ci]["expect"][0], cases[ci]["expect"][1], hexs(cases[ci]["expect"][2]),
+                                                     hexs(cases[ci]["expect"][3])) for ci in failing_idx])
+    for ci, exp in zip(failing_idx, exps):
+        c, o = cases[ci], obs[ci]
         ok_kind, lkind, body, warn = c["expect"]
-        exp = driver([f"cli outcome {ok_kind} {lkind} {hexs(body)} {hexs(warn)}"])[0]
         failing.append({"argv": c["argv"], "input_name": c["inp"]["name"], "input": _txt(c["inp"]["text"]),
                         "stdin": c["stdin"] is not None, "load_path_dirs": c["inp"]["lib"], "output_mode": c["out_mode"],
                         "observed": _obs_json(o), "library": {"result": lkind, "css_or_display": body[:4000], "stderr_of_logger": warn[:2000]},
                         "expected(model outcome)": _exp_json(exp),
                         "expected_by_property": "exit 0 and exactly the library's CSS in the sink / non-zero exit, empty stdout and the rendered error on stderr"})
-    log(f"[C20] verdicts done in {time.time() - t0:.1f}s; {len(failing)} failing")
+    log(f"[C20] verdicts done in {time.time() - t0:.1f}s; {n_failing} failing")
 
     # ---- the known finding: --stdin with an output file ---------------------------------------
     d = os.path.join(root, "kf")
